@@ -20,9 +20,9 @@ PLAN = {
     # prop: (case kinds with weights, quick cases, thorough cases, quick wall cap s, thorough wall cap s)
     "C20": ([("directed", 1), ("world", 6)], 1800, 40000, 75, 1100),
     "C16": ([("directed", 1), ("world", 6)], 1800, 40000, 75, 1100),
-    "C15": ([("hist15", 1)], 16000, 400000, 60, 900),
-    "C14": ([("twin14", 1)], 6000, 150000, 60, 900),
-    "C19": ([("deriv19", 1)], 6000, 150000, 60, 900),
+    "C15": ([("hist15", 1)], 40000, 600000, 70, 900),
+    "C14": ([("twin14", 1)], 6000, 120000, 70, 900),
+    "C19": ([("deriv19", 1)], 30000, 500000, 70, 900),
 }
 
 
@@ -55,6 +55,10 @@ def _case_brief(case):
     if "steps" in c:
         c["steps"] = c["steps"][:8]
     return c
+
+
+def _unused():
+    pass
 
 
 def plan_items(prop, tier, seed, ncases):
